@@ -37,6 +37,7 @@ func c08(c *Ctx) {
 	requestBookkeepingRule(c, "R10")
 	c08R11(c)
 	c08R12(c)
+	c08R13(c)
 }
 
 func c08R4(c *Ctx) {
@@ -1079,4 +1080,25 @@ func c08R12(c *Ctx) {
 		}
 	}
 	c.R.Ob(rule, "nil-receiver-panic-methods", len(panics) >= 1, "-", "", fmt.Sprintf("%d methods panic on a nil receiver, %d nil-able RoundState fields, %d call sites examined", len(panics), len(nilable), n))
+}
+
+// c08R13: allocation sizes are bounded in every context — a recover does not help against an allocation
+// that exhausts memory.
+func c08R13(c *Ctx) {
+	rule := c.R.Rule("R13", "bounded allocation under the recover too: in code reachable from the recovered p2p routines an integer decoded from peer bytes that reaches an allocation size (make, through function parameters) is edge-dominated by an upper bound (a recovered panic costs a connection; an unbounded allocation costs the process)", 1)
+	scope := c.recoveredScope()
+	peer := taint.PeerTypes(c.P, c08RegPkgs, c08ExtraPeer)
+	eng := taint.New(c.P, peer, c.Fn, scope)
+	eng.Trusted = []string{").TwoThirdsMajority(", "gemmill/blockchain.(*BlockStore).Load", "gemmill/blockchain.(*BlockStore).GetReader("}
+	fs, sinks, _ := eng.CheckBounds()
+	n := 0
+	for _, f := range fs {
+		if !strings.HasPrefix(f.Kind, "make") || !strings.Contains(f.Missing, "upper") {
+			continue
+		}
+		n++
+		c.R.Ob(rule, "alloc:"+core.Short(fname(f.Fn))+":"+reAtPos.ReplaceAllString(f.Kind, "")+":"+shorten(f.Operand), false, c.Pos(f.Ins), fname(f.Fn),
+			fmt.Sprintf("peer-controlled %v sizes an allocation without an upper bound; %s %v", f.Taint, guardsText(f.Fn, f.Ins), f.Via))
+	}
+	c.R.Ob(rule, "scope", len(scope) > 100 && sinks > 50, "-", "", fmt.Sprintf("%d functions, %d sinks examined, %d unbounded allocations", len(scope), sinks, n))
 }
